@@ -11,6 +11,7 @@ import (
 
 	c4eapp "github.com/chain4energy/c4e-chain/app"
 	"github.com/cosmos/cosmos-sdk/client/tx"
+	"github.com/cosmos/cosmos-sdk/crypto/keys/ed25519"
 	"github.com/cosmos/cosmos-sdk/simapp"
 	sdk "github.com/cosmos/cosmos-sdk/types"
 	"github.com/cosmos/cosmos-sdk/types/tx/signing"
@@ -55,6 +56,7 @@ type Chain struct {
 	Time   time.Time
 	hdr    tmproto.Header
 	inBlk  bool
+	fresh  bool // InitChain has run in this process and no block has begun since
 }
 
 // NewChainFromGenesis builds a fresh app and InitChains it from raw app-state bytes.
@@ -82,7 +84,7 @@ func NewChainFromGenesisWith(appState []byte, initialHeight int64, genesisTime t
 	if h == 0 {
 		h = 1
 	}
-	return &Chain{DB: db, App: a, W: w, Height: h - 1, Time: genesisTime, Flags: flags}
+	return &Chain{DB: db, App: a, W: w, Height: h - 1, Time: genesisTime, Flags: flags, fresh: true}
 }
 
 // Restart models a restart of the node process between two blocks: a new application instance is
@@ -225,11 +227,30 @@ func txResultString(r abci.ResponseDeliverTx) string {
 	return fmt.Sprintf("code=%d codespace=%s data=%x gas=%d/%d events=%s", r.Code, r.Codespace, r.Data, r.GasUsed, r.GasWanted, evString(r.Events))
 }
 
+// SecondValidatorAddr is the consensus address of the deterministic second validator.
+func SecondValidatorAddr() []byte {
+	return ed25519.GenPrivKeyFromSecret([]byte("validator1")).PubKey().Address()
+}
+
+// inSet: is the validator with this consensus address bonded (i.e. in the validator set of the next block)?
+func (c *Chain) inSet(cons []byte) bool {
+	// (between InitChain and the first commit the genesis state is visible in the deliver state only)
+	ctx := c.App.BaseApp.NewContext(!c.fresh, tmproto.Header{Height: c.Height, Time: c.Time, ChainID: ChainID})
+	v, found := c.App.StakingKeeper.GetValidatorByConsAddr(ctx, sdk.ConsAddress(cons))
+	return found && v.IsBonded()
+}
+
 // Begin opens the next block at time t.
 func (c *Chain) Begin(t time.Time) (bt BlockTrace) {
 	c.hdr = c.header(t)
-	vote := abci.VoteInfo{Validator: abci.Validator{Address: c.W.ValSet.Validators[0].Address, Power: 1}, SignedLastBlock: true}
-	res := c.App.BeginBlock(abci.RequestBeginBlock{Header: c.hdr, LastCommitInfo: abci.LastCommitInfo{Votes: []abci.VoteInfo{vote}}})
+	votes := []abci.VoteInfo{{Validator: abci.Validator{Address: c.W.ValSet.Validators[0].Address, Power: 1}, SignedLastBlock: true}}
+	// a second validator of the genesis (ChainCfg.SecondValidator) never signs: as long as it is bonded it is
+	// in the validator set and is reported as absent
+	if v2 := SecondValidatorAddr(); c.inSet(v2) {
+		votes = append(votes, abci.VoteInfo{Validator: abci.Validator{Address: v2, Power: 1}, SignedLastBlock: false})
+	}
+	c.fresh = false
+	res := c.App.BeginBlock(abci.RequestBeginBlock{Header: c.hdr, LastCommitInfo: abci.LastCommitInfo{Votes: votes}})
 	c.inBlk = true
 	bt.Height = c.hdr.Height
 	bt.BeginEvs = evString(res.Events)
